@@ -589,6 +589,71 @@ def terminal_positions_level():
     return n, bad
 
 
+def polya_verification_level():
+    """PolyAVerifier.verify_polya vs verify_polyt on mirrored inputs: isoforms with and without short terminal exons, reads with the
+       terminal variations the verifier looks at, tail positions on a grid around every terminal exon boundary (external and internal),
+       every subset of the terminal events"""
+    import src.isoform_assignment as IA
+    from src.polya_verification import PolyAVerifier
+    from src.polya_finder import PolyAInfo
+    from types import SimpleNamespace
+    L = 10000
+    params = SimpleNamespace(apa_delta=50, delta=6, max_fake_terminal_exon_len=30, max_missed_exon_len=200)
+    T = IA.MatchEventSubtype
+    right = [T.exon_elongation_right, T.major_exon_elongation_right, T.fake_terminal_exon_right, T.terminal_exon_misalignment_right]
+    to_left = {T.exon_elongation_right: T.exon_elongation_left, T.major_exon_elongation_right: T.major_exon_elongation_left,
+               T.fake_terminal_exon_right: T.fake_terminal_exon_left, T.terminal_exon_misalignment_right: T.terminal_exon_misalignment_left,
+               T.correct_polya_site_right: T.correct_polya_site_left, T.alternative_polya_site_right: T.alternative_polya_site_left}
+    to_right = {v: k for k, v in to_left.items()}
+    isoforms = [[(1000, 1200), (1500, 1700), (2000, 2300)],
+                [(1000, 1200), (1500, 1700), (2000, 2300), (2400, 2420)],                  # short last exon (21 bp)
+                [(1000, 1200), (1500, 1700), (2000, 2300), (2400, 2420), (2500, 2525)],    # two short last exons
+                [(1000, 1200), (1500, 1700), (2000, 2300), (2400, 2550)]]                  # last exon of 151 bp (< max_missed_exon_len)
+    reads = [[(1000, 1200), (1500, 1700), (2000, 2300)], [(1000, 1200), (1500, 1700), (2000, 2330)],
+             [(1000, 1200), (1500, 1700), (2000, 2300), (2600, 2620)], [(1100, 1200), (1500, 1700), (2000, 2150)]]
+    grid = sorted(set(x + d for x in (2150, 2300, 2330, 2420, 2525, 2550, 2620) for d in (-51, -50, -30, -7, -6, 0, 6, 7, 30, 50, 51)))
+    mir = lambda ex: [(L - b, L - a) for a, b in reversed(ex)]
+    bad = []
+    n = 0
+
+    def norm(events, n_introns, mirrored):
+        out = []
+        for e in events:
+            t = e.event_type
+            reg = tuple(e.isoform_region)
+            info = e.event_info
+            if mirrored:
+                t = to_right.get(t, t)
+                if 0 <= reg[0] < 10 ** 6:
+                    reg = (n_introns - 1 - reg[1], n_introns - 1 - reg[0])
+                if t in (T.correct_polya_site_right, T.alternative_polya_site_right):
+                    info = L - info
+            out.append((t.name, reg, info if t in (T.correct_polya_site_right, T.alternative_polya_site_right) else 0))
+        return sorted(out)
+    for iso in isoforms:
+        for rd in reads:
+            for k in range(0, 3):
+                for evs in itertools.combinations(right, k):
+                    if T.fake_terminal_exon_right in evs and len(rd) < 4:
+                        continue
+                    for ext, inte in [(g, -1) for g in grid] + [(-1, g) for g in grid] + [(g, g - 20) for g in grid[::3]]:
+                        n += 1
+                        va = PolyAVerifier(None, params)
+                        vt = PolyAVerifier(None, params)
+                        try:
+                            a = va.verify_polya(iso, rd, PolyAInfo(ext, -1, inte, -1), [IA.MatchEvent(t) for t in evs])
+                            b = vt.verify_polyt(mir(iso), mir(rd), PolyAInfo(-1, L - ext if ext != -1 else -1, -1, L - inte if inte != -1 else -1),
+                                                [IA.MatchEvent(to_left[t]) for t in evs])
+                        except Exception as e:  # noqa
+                            bad.append(((iso, rd, evs, ext, inte), "raised %r" % (e,)))
+                            continue
+                        na, nb = norm(a, len(iso) - 1, False), norm(b, len(iso) - 1, True)
+                        if na != nb:
+                            bad.append(((iso, rd, evs, ext, inte), "isoform %s read %s events %s polyA external %d internal %d: verify_polya gives %s, "
+                                        "verify_polyt on the mirror image gives the mirror image of %s" % (iso, rd, [t.name for t in evs], ext, inte, na, nb)))
+    return n, bad
+
+
 def thread_ends_level():
     """IntronPathProcessor.thread_ends vs thread_starts on mirrored graphs: last intron (100,200) with every subset of terminal vertices
        out of two polyA and two read-end positions, with / without a following intron, every read end on a grid, trusted or not"""
@@ -643,6 +708,11 @@ def run(ctx):
     for case_, msg in bad_te[:3]:
         ctx.violation("l0:thread-ends-not-mirrored", msg, {"case": [list(case_[0]), list(case_[1]), list(case_[2] or ()), case_[3], case_[4]]})
     ctx.note("L0 thread ends/starts: %d (terminal vertices, read end, trusted) cases, thread_ends vs thread_starts on the mirrored graph" % n_te)
+    n_pv, bad_pv = polya_verification_level()
+    for case_, msg in bad_pv[:3]:
+        ctx.violation("l0:polya-verification-not-mirrored", msg, {"isoform": [list(x) for x in case_[0]], "read": [list(x) for x in case_[1]],
+                                                                  "events": [t.name for t in case_[2]], "external": case_[3], "internal": case_[4]})
+    ctx.note("L0 polyA verification: %d cases, verify_polya vs verify_polyt on the mirror image" % n_pv)
     n_tp, bad_tp = terminal_positions_level()
     for case_, msg in bad_tp[:3]:
         ctx.violation("l0:terminal-positions-not-mirrored", msg, {"case": [list(map(list, case_[0]))] + list(case_[1:])})
